@@ -37,8 +37,10 @@ EXPLANATION = ('Theorems C01_* (Coq, all strings / ints / dates / decimals / byt
 TRUSTED_BASE = [
     'Coq 8.16.1 kernel + vm_compute (examples, correspondence); no native_compute',
     'tools/py2coq/gen_columns.py (extraction of the converter format strings, strptime formats and sqlite column types)',
-    'stdlib / engine codecs enter the theorems as hypotheses (Proofs/ColumnsCodec.v: codecs_ok) and the correspondence as per-case tables '
-    'computed with the stdlib and a raw sqlite3 connection, never through SQLObject: repr(float), sqlite storing a non-integer numeric literal '
+    'stdlib / engine codecs (record `codecs` of Model/Columns.v) enter the theorems as named per-value hypotheses (codec_law: base64, pickle, '
+    'json, uuid round trips; engine_exact / engine_roundtrip: the ORACLE "sqlite stores, reloads and compares this number without loss" for '
+    'Float/Decimal/Currency columns and integers beyond int64) and the correspondence as per-case tables computed with the stdlib and a raw '
+    'sqlite3 connection, never through SQLObject: repr(float), sqlite storing a numeric literal that is not a plain int64 integer '
     '(text->double, REAL<->INTEGER affinity conversion), float(Decimal), base64, pickle, json.dumps/loads, str(UUID)/UUID(str)',
     'Model/Columns.v reference semantics validated only by the correspondence: sqlite string/integer literal rules and type affinity, '
     'what sqlite3 with text_factory=str returns, datetime.strptime for the three formats used, Decimal(str)/to_eng_string/quantize/int(), '
@@ -190,7 +192,7 @@ N_OTHER = 3                         # rows of the referenced class (ids 1..3)
 _FIX = {}
 
 
-def fixture():
+def fixture(skip=()):
     """built once per process: connection, the referenced class, the three variants"""
     if _FIX:
         return _FIX
@@ -198,7 +200,7 @@ def fixture():
     import sqlobject
     from sqlobject import SQLObject, connectionForURI
     conn = connectionForURI('sqlite:/:memory:')
-    tag = 'VerifC01x%d' % os.getpid()
+    tag = 'VerifC01x%d%s' % (os.getpid(), 'r' if skip else '')
 
     other = type(tag + 'Other', (SQLObject,), {'_connection': conn, 'n': sqlobject.IntCol(default=0)})
     other.createTable()
@@ -209,6 +211,8 @@ def fixture():
         attrs = {'_connection': conn}
         for name, ctor, kw in COLUMNS:
             kw = dict(kw)
+            if name in skip:
+                continue
             if ctor == 'ForeignKey':
                 attrs[name] = sqlobject.ForeignKey(tag + 'Other', default=None)
             else:
@@ -225,7 +229,7 @@ def fixture():
     decl = {}
     for row in raw.execute('PRAGMA table_info(%s)' % classes['E'].sqlmeta.table):
         decl[row[1]] = row[2]
-    _FIX.update(conn=conn, other=other, classes=classes, raw=raw, decl=decl)
+    _FIX.update(conn=conn, other=other, classes=classes, raw=raw, decl=decl, skip=tuple(skip))
     return _FIX
 
 
@@ -503,10 +507,20 @@ def run_impl(cases):
     out = []
     try:
         F = fixture()
-    except Exception as e:
-        return [{'crash': 'fixture: %s: %s' % (type(e).__name__, e)} for _ in cases]
+    except Exception as e0:
+        # the enum column's CHECK clause embeds string literals: when even the table cannot be made,
+        # go on without that column (its cases are reported as refused)
+        try:
+            F = fixture(skip=('e',))
+            F['skip_reason'] = type(e0).__name__
+        except Exception as e:
+            return [{'crash': 'fixture: %s: %s' % (type(e).__name__, e)} for _ in cases]
     for c in cases:
         try:
+            if c['col'] in F.get('skip', ()):
+                out.append({'w': ['raise', 'Fixture' + F.get('skip_reason', 'Error')], 'rows_added': 0, 'decl': None,
+                            'codecs': codec_tables(None)})
+                continue
             o = run_one(F, c)
             o['codecs'] = codec_tables(dec(c['v'], F['other']) if c['v'][0] != 'obj' else None)
         except Exception as e:
@@ -659,11 +673,11 @@ def coq_case(c, o):
                coq_res_val(o.get('cache')), coq_res_val(o.get('found')), coq_res_val(o.get('foundby')),
                coq_res_val(o.get('sel')), coq_res_val(o.get('exp')), coq_res_val(o.get('fresh')),
                coq_res_val(o.get('selfresh'))))
-    return ('{| c_col := %s; c_val := %s; c_wp := %s; c_var := %s; c_decl := %s; c_tab := %s; c_obs := %s |}' % (
+    return ('{| c_col := %s; c_val := %s; c_wp := %s; c_var := %s; c_decl := %s; c_indom := %s; c_tab := %s; c_obs := %s |}' % (
         coq_coltype(c['col']), coq_val(c['v']),
         {'create': 'WCreate', 'setattr': 'WSetattr', 'set': 'WSet'}[c['wp']],
         {'E': 'VEager', 'N': 'VNoCache', 'L': 'VLazy'}[c['cls']],
-        slit([ord(ch) for ch in (o.get('decl') or '')]), coq_tables(o['codecs']), obs))
+        slit([ord(ch) for ch in (o.get('decl') or '')]), blit(in_domain(c['col'], dec(c['v']))), coq_tables(o['codecs']), obs))
 
 
 # ---------------------------------------------------------------- generators (values are built here, in the parent, and shipped encoded)
@@ -1140,7 +1154,7 @@ def in_domain(col, v):
     if col == 'js':
         return json_domain(v)
     if col == 'fk':
-        return (type(v) is int and 1 <= v <= N_OTHER) or (isinstance(v, tuple) and v and v[0] == 'obj')
+        return (type(v) is int and INT64[0] <= v <= INT64[1]) or (isinstance(v, tuple) and len(v) == 2 and v[0] == 'obj')
     return False
 
 
@@ -1194,3 +1208,139 @@ def oracle(c, o):
         if o.get(q) != ['ok', ['bool', 1]]:
             return {'what': '%s: the equality query (%s) does not find the row: %r' % (desc, q, o.get(q)), 'kind': 'query'}
     return None
+
+
+# ---------------------------------------------------------------- known findings: the narrow trigger class of each
+INT_COLS = ('i', 'ti', 'si', 'mi', 'bi', 'fk')
+REAL_DEC_COLS = ('dec', 'dec20', 'cur')
+
+
+def derived_int(v):
+    """the integer an integer / key column's validator makes of v (None: it makes none)"""
+    import decimal
+    import uuid
+    try:
+        if type(v) is bool:
+            return int(v)
+        if type(v) is int:
+            return v
+        if type(v) is float or type(v) is decimal.Decimal:
+            return int(v)
+        if type(v) is uuid.UUID:
+            return v.int
+        if type(v) in (str, bytes):
+            return int(v)
+    except (ValueError, OverflowError, decimal.InvalidOperation):
+        return None
+    return None
+
+
+def derived_decimal(v):
+    import decimal
+    try:
+        if type(v) is decimal.Decimal:
+            return v
+        if type(v) is int and type(v) is not bool:
+            return decimal.Decimal(v)
+        if type(v) is float:
+            return decimal.Decimal(repr(v))
+        if type(v) is str:
+            return decimal.Decimal(v)
+    except (decimal.InvalidOperation, ValueError):
+        return None
+    return None
+
+
+def sqlite_keeps_float(o, v):
+    """does the engine (as observed through a raw connection, see codec_tables) read repr(v) back as v"""
+    t = o.get('codecs') or {}
+    rep = dict((int(b), r) for b, r in t.get('frepr', []))
+    st = dict((tuple(x), r) for x, r in t.get('nstore', []))
+    r = rep.get(fbits(v))
+    if r is None or tuple(r) not in st:
+        return None
+    real = st[tuple(r)][AFFINITIES.index('REAL')]
+    return real[0] == 'real' and bits_f(int(real[1])) == v
+
+
+def classify(c, o, f):
+    import datetime
+    import decimal
+    col, kind = c['col'], c['v'][0]
+    fk = f.get('kind')
+    v = dec(c['v'])
+    # F1: a date / time object of the wrong kind in a date / time column: stored, then unreadable
+    if fk in ('unreadable', 'raised-after-store', 'query'):
+        if (col in ('dt', 'ts') and kind in ('date', 'time')) or (col == 'd' and kind == 'time') or (col == 't' and kind == 'date'):
+            return 'date_time_kind_unreadable'
+    # F3: tzinfo silently dropped: the writer keeps the aware value, the row the naive text
+    if fk == 'inconsistent' and ((col in ('dt', 'ts') and kind == 'datetime' and c['v'][8]) or (col == 't' and kind == 'time' and c['v'][5])):
+        return 'tzinfo_dropped'
+    # F2: sqlite's text->double mis-rounds the literal of this very float
+    if col == 'f' and kind == 'float' and fk in ('changed',) and sqlite_keeps_float(o, v) is False:
+        return 'float_literal_misrounded'
+    # F4: integer beyond int64 in an integer / key column: held as REAL
+    if col in INT_COLS and fk in ('inconsistent', 'unreadable', 'raised-after-store', 'query'):
+        z = derived_int(v)
+        if z is not None and not (INT64[0] <= z <= INT64[1]):
+            return 'int_beyond_int64_stored_as_real'
+    # F5: an int (or a UUID, through __int__) in a FloatCol stays an int in the writer's cache
+    if col == 'f' and kind in ('int', 'uuid') and fk in ('inconsistent', 'query'):
+        z = derived_int(v)
+        if z is not None and abs(z) > 2 ** 53:
+            return 'float_col_keeps_int'
+    # F6 / F7: DECIMAL columns are NUMERIC affinity on sqlite: REAL or INTEGER storage
+    if col in REAL_DEC_COLS:
+        d = derived_decimal(v)
+        if d is not None and d.is_finite():
+            if fk == 'type' and kind == 'dec' and d == d.to_integral_value():
+                return 'decimal_integral_read_as_int'
+            digits = len(d.normalize().as_tuple().digits)
+            if fk in ('changed', 'inconsistent', 'query') and (digits > 15 or abs(d.adjusted()) > 300):
+                return 'decimal_stored_as_real'
+    return None
+
+
+# ---------------------------------------------------------------- evidence
+def nontrivial(c, o):
+    if c['v'][0] == 'none':
+        return False
+    if o.get('w') != ['ok']:
+        return True
+    raw = o.get('raw')
+    v = c['v']
+    plain = (v[0] == 'str' and raw == ['text', v[1]]) or (v[0] == 'int' and raw == ['integer', v[1]])
+    if plain and v[0] == 'str':
+        plain = 39 not in v[1]          # a quote had to be escaped
+    return not plain
+
+
+def key(c):
+    return [c['col'], c['v'], c['wp'], c['cls']]
+
+
+def distribution(cases, obs):
+    d = {'by_column': {}, 'by_kind': {}, 'by_write_path': {}, 'by_variant': {}, 'in_domain': 0, 'out_of_domain': 0,
+         'refused': 0, 'refused_by': {}, 'stored_as': {}}
+    for c, o in zip(cases, obs):
+        d['by_column'][c['col']] = d['by_column'].get(c['col'], 0) + 1
+        d['by_kind'][c['v'][0]] = d['by_kind'].get(c['v'][0], 0) + 1
+        d['by_write_path'][c['wp']] = d['by_write_path'].get(c['wp'], 0) + 1
+        d['by_variant'][c['cls']] = d['by_variant'].get(c['cls'], 0) + 1
+        try:
+            ind = in_domain(c['col'], dec(c['v']))
+        except Exception:
+            ind = False
+        d['in_domain' if ind else 'out_of_domain'] += 1
+        if isinstance(o, dict) and 'w' in o:
+            if o['w'] != ['ok']:
+                d['refused'] += 1
+                d['refused_by'][o['w'][1]] = d['refused_by'].get(o['w'][1], 0) + 1
+            if o.get('raw'):
+                d['stored_as'][o['raw'][0]] = d['stored_as'].get(o['raw'][0], 0) + 1
+    return d
+
+
+def explain(c, o):
+    keep = {k: o.get(k) for k in ('w', 'raw', 'cache_pre', 'cache', 'found', 'sel', 'exp', 'fresh', 'selfresh') if k in o}
+    return 'value %r -> %r' % (c['v'], keep)
